@@ -306,6 +306,53 @@ def _smooth_scn(rng):
 
 
 @group(quick=200, thorough=6000)
+def nonlinear_step(ctx, rng, idx):
+    """the linearised system of one REAL step on a nonlinear multi-equation problem (Euler, nozzle, shallow water, Burgers), with one
+    global time step or one time step PER CELL: increment = (D - theta J)^-1 R with D = diag(1/dt of the cell of each unknown), J the
+    Jacobian the integrator itself holds after the step (compared with the derivative of the operator by the 'jacobian' group) and
+    R the real right-hand side"""
+    s, limited = _smooth_scn(rng)
+    iname = ["implicit", "cranknicolson", "backwardeuler", "trapezoidal", "gear"][idx % 5]
+    n, neq = s.mesh.ncell, s.model.neq
+    cfl = float(rng.choice([0.3, 1.0, 3.0, 10 ** rng.uniform(-1, 1)]))
+    with probes.quiet():
+        dtc = np.asarray(s.disc.calc_timestep(s.field, cfl), float)
+        R0 = [np.array(r, float, copy=True) for r in s.disc.rhs(s.field.copy())]
+    if not np.all(np.isfinite(dtc)):
+        raise core.Skip("no finite time step")
+    local = bool(rng.random() < 0.6)
+    dt = dtc.copy() if local else float(np.min(dtc))
+    ctx.describe(integrator=iname, cfl=cfl, local_time_steps=local, dt=dt, limited=limited, **s.desc())
+    solver = gen.integ(iname)(s.mesh, s.disc)
+    f = s.field.copy()
+    try:
+        solver.step(f, dt)
+    except np.linalg.LinAlgError:
+        raise core.Skip("singular")
+    J = np.array(solver.jacobian, float)
+    th = THETA.get(iname, 0.5)          # gear starts with a Crank-Nicolson step
+    D = np.diag(np.repeat(1.0 / (dt * np.ones(n)), neq))           # unknowns are ordered cell by cell, equation index fastest
+    rhs = np.zeros(n * neq)
+    for q in range(neq):
+        rhs[q::neq] = R0[q]
+    try:
+        inc = np.linalg.solve(D - th * J, rhs)
+        cond = float(np.linalg.cond(D - th * J))
+    except np.linalg.LinAlgError:
+        raise core.Skip("singular reference system")
+    if not cond < 1e8:
+        raise core.Skip("ill-conditioned system")
+    cls = "step:" + iname
+    for q in range(neq):
+        got = np.asarray(f.data[q], float) - np.asarray(s.field.data[q], float)
+        sc = np.max(np.abs(inc[q::neq])) + 1e-12 * cond * np.max(np.abs(s.field.data[q])) + 1e-300
+        ctx.close("nonlinear-step", float(np.max(np.abs(got - inc[q::neq])) / sc), 1e-9, "nonlinear-step/%s/increment-is-not-the-solution-of-the-linearised-system/%s" % (iname, "local-time-steps" if local else "global-time-step"),
+                  {"eq": q, "model": s.mname, "cond": cond}, cls=cls)
+    ctx.close("nonlinear-step", abs(f.time - s.field.time - float(np.min(dt))) / float(np.min(dt)), 1e-9, "nonlinear-step/%s/time-advance" % iname, None, cls=cls)
+    ctx.nontrivial("nlstep", iname, cfl, local, s.desc())
+
+
+@group(quick=200, thorough=6000)
 def jacobian(ctx, rng, idx):
     """calc_jacobian of the real integrator vs central differences of the real rhs (Richardson-checked)"""
     s, limited = _smooth_scn(rng)
